@@ -306,6 +306,13 @@ def run(ctx):
             plan += [("sn_3x3", world_sn(3, 3), 2, 4000, 800), ("ls_3_retry", world_ls(3, True), 2, 5000, 1200)]
         for name, mk, bound, max_runs, rnd in plan:
             run_scenario(ctx, name, mk, bound, max_runs, rnd)
+        if not getattr(ctx, "proof_ok", True) and not ctx.failures:
+            # an obligation on the regenerated lock summary no longer checks (or the translator refused the source): search
+            # the scenarios much deeper for a schedule on which the real router misbehaves
+            for name, mk, bound, max_runs, rnd in plan:
+                if ctx.failures:
+                    break
+                run_scenario(ctx, name + "_deep", mk, 2, 1500, 400)
     finally:
         restore_locks()
     ctx.exhaustive = False
